@@ -277,6 +277,57 @@ def check_user(case):
                     v("wrong-group", "on a reused object size %d gave %s" % (size, r[0]), size=size)
             except Exception as e:  # noqa
                 v("exception", "on a reused object size %d raised %r" % (size, e), size=size)
+    # a (correctly) rejected user alphabet between two requests for the SAME predefined size on one object: the second must equal
+    # the first; the fault sits at every position of the validation order in turn
+    for si, size in enumerate(T.SIZES):
+        o2 = SP(seq)
+        gm = {a: g for g in T.REDUCED[size] for a in g}
+        try:
+            first = o2.get_reduced_alphabet_sequence(size)
+            calls += 1
+        except Exception as e:  # noqa
+            v("exception", "size %d raised %r" % (size, e), size=size)
+            continue
+        for k, a in enumerate(T.AA):
+            bad = dict(vas[(si + k) % len(vas)][1])
+            if k % 2:
+                del bad[a]
+            else:
+                bad[a] = "x"
+            calls += 2
+            try:
+                o2.get_reduced_alphabet_sequence(userAlphabet=bad)
+                v("invalid-user-alphabet-accepted", "a user alphabet with a fault at %s was accepted on a reused object" % a, residue=a)
+            except Exception:  # noqa
+                pass
+            try:
+                again = o2.get_reduced_alphabet_sequence(size)
+            except Exception as e:  # noqa
+                v("exception", "size %d after a rejected user alphabet raised %r" % (size, e), size=size)
+                break
+            if again[0] != first[0] or list(again[1]) != list(first[1]) or any(b not in gm[x] for x, b in zip(seq, again[0])):
+                v("rejected-alphabet-changes-later-results", "size %d before a rejected user alphabet (fault at %s) gave %s, afterwards %s"
+                  % (size, a, first[0], again[0]), size=size, residue=a)
+                break
+    # ONE dictionary object edited in place between calls on one object: every call sees the dictionary as it is now
+    o3 = SP(seq)
+    d = {a: a for a in T.AA}
+    for step, (a, b) in enumerate([(None, None), ("R", "K"), ("D", "E"), ("T", "S"), ("I", "L"), ("K", "H"), ("A", "x"), ("A", "G")]):
+        if a is not None:
+            d[a] = b
+        calls += 1
+        valid = all(x in T.AASET for x in d.values())
+        try:
+            r = o3.get_reduced_alphabet_sequence(userAlphabet=d)
+        except Exception as e:  # noqa
+            if valid:
+                v("valid-user-alphabet-rejected", "dictionary edited in place (step %d) raised %r" % (step, e), step=step)
+            continue
+        if not valid:
+            v("invalid-user-alphabet-accepted", "dictionary edited in place so that %s maps to %r was accepted" % (a, b), step=step)
+        elif r[0] != "".join(d[x] for x in seq) or sorted(r[1]) != sorted(set(d.values())):
+            v("user-alphabet-edited-in-place-ignored", "after in-place edit %d (%s->%s) of the same dictionary object the result is %r %r"
+              % (step, a, b, r[0], list(r[1])), step=step)
     for bad in ([("A", "A")], "ACDEFGHIKLMNPQRSTVWY", 5, [1, 2, 3], ("A",), {"A"}):
         calls += 1
         try:
@@ -327,6 +378,7 @@ def run(tier, seed, t0):
              "sizes -1..26 and 6 non-integers (exactly the 12 accepted); length / concatenation / idempotence laws on %d word pairs "
              "x 12 sizes; 4 valid user alphabets applied residue by residue, each with every single fault (20 keys x {missing, "
              "lower case, X, empty, int, two letters, None, and X / lower case / * that are ALSO keys of the dictionary}) and 6 non-dict arguments rejected; "
+             "a rejected alphabet (fault at each of the 20 positions) between two requests for the same size on one object, for all 12 sizes; one dictionary object edited in place between calls; "
              "each valid alphabet also with its keys inserted in 5 other orders, with and without extra non-amino-acid keys (same result); "
              "dont-care: whether extra keys with valid targets are accepted, empty "
              "containers; non-trivial = all but single-letter law cases" % len(pairs),
